@@ -281,6 +281,42 @@ fn get_or_fetch_disk_hit(store: &LoadStoreT, key: u64, ctx: &mut CtxT) -> (r: Re
 //@end
 
 // =====================================================================================================
+// C01: HybridCache::remove and ::clear reach BOTH tiers unconditionally: remove takes the key out of memory and always
+// tells the disk tier to delete it (the disk tier orders the delete against writes still in its queue by sequence; a
+// "is it on disk?" pre-check would miss exactly those); clear clears memory and destroys the disk content.
+// =====================================================================================================
+pub struct RemMemT { pub removed: Ghost<Seq<u64>>, pub clears: Ghost<nat> }
+impl RemMemT {
+    #[verifier::external_body] pub fn remove(&mut self, key: &u64) -> Option<EntryT> ensures final(self).removed@ == old(self).removed@.push(*key), final(self).clears == old(self).clears { unimplemented!() }
+    #[verifier::external_body] pub fn contains(&self, key: &u64) -> bool { unimplemented!() }
+    #[verifier::external_body] pub fn clear(&mut self) ensures final(self).clears@ == old(self).clears@ + 1, final(self).removed == old(self).removed { }
+}
+pub struct RemStoreT { pub deleted: Ghost<Seq<u64>>, pub destroys: Ghost<nat> }
+impl RemStoreT {
+    #[verifier::external_body] pub fn delete(&mut self, key: &u64) ensures final(self).deleted@ == old(self).deleted@.push(*key), final(self).destroys == old(self).destroys { }
+    #[verifier::external_body] pub fn may_contains(&self, key: &u64) -> bool { unimplemented!() }
+    #[verifier::external_body] pub fn destroy(&mut self) -> (r: Result<()>) ensures final(self).destroys@ == old(self).destroys@ + 1, final(self).deleted == old(self).deleted { unimplemented!() }
+}
+pub struct RemInnerT { pub memory: RemMemT, pub storage: RemStoreT }
+pub struct RemHybridT { pub inner: RemInnerT }
+impl RemHybridT {
+//@region foyer/src/hybrid/cache.rs :: impl~^impl<K, V, S> HybridCache<K, V, S> where/fn remove name=hybrid_remove start=/let now = Instant::now\(\);/ stmts=99 rules=drop-metrics,drop-tracing subopt=@try_cancel!\([^;]*\);@@
+//@head
+    fn hybrid_remove(&mut self, key: &u64)
+        ensures
+            final(self).inner.memory.removed@ == old(self).inner.memory.removed@.push(*key), // @label remove_takes_the_key_out_of_memory
+            final(self).inner.storage.deleted@ == old(self).inner.storage.deleted@.push(*key), // @label remove_always_tells_the_disk_tier_to_delete_the_key
+//@end
+//@region foyer/src/hybrid/cache.rs :: impl~^impl<K, V, S> HybridCache<K, V, S> where/fn clear name=hybrid_clear whole=1 rules=de-async
+//@head
+    fn hybrid_clear(&mut self) -> (r: Result<()>)
+        ensures
+            final(self).inner.memory.clears@ == old(self).inner.memory.clears@ + 1, // @label clear_clears_memory
+            final(self).inner.storage.destroys@ == old(self).inner.storage.destroys@ + 1, // @label clear_destroys_the_disk_content
+//@end
+}
+
+// =====================================================================================================
 // C15: graceful close
 // =====================================================================================================
 //@region foyer/src/hybrid/cache.rs :: impl~^impl<K, V, S> Inner<K, V, S> where/fn close_inner name=close_inner start=/if closed\.fetch_or\(/ stmts=4 rules=drop-tracing,de-async
